@@ -16,7 +16,7 @@ Do(step, adv) ==
   IN  /\ advanced' = (advanced \/ adv)
       /\ S' = o.S
       /\ last' = [step |-> step, res |-> o.res, mechs |-> o.mechs, tok |-> o.tok, H |-> H, adv |-> advanced \/ adv]
-      /\ H' = HNext(H, step, o.res)
+      /\ H' = HNext(H, step, o.res, o.mechs)
       /\ n' = n + 1
       /\ UNCHANGED <<cfg, w>>
 Next == n < MaxLen /\ \E step \in Steps : Do(step, FALSE) \/ (~advanced /\ Do(step, TRUE))
@@ -26,6 +26,8 @@ Inv == n > 0 => L1Step(cfg, w, last.adv, last.H, last.step, last.res, last.mechs
 \* vacuity guards (each VIOLATED when checked alone)
 ReachTotpSuccess   == ~(last.res = "success" /\ S.h = "passwordtotp")
 ReachBackupSuccess == ~(last.res = "success" /\ S.h = "passwordbackupcode")
+\* after a refused mechanism choice a Begin of an OFFERED mechanism is answered with an error
+ReachRefusedChoice == ~(last.step.a = "begin" /\ last.H.ended /\ last.H.has /\ last.H.acc = <<>> /\ last.step.x \in last.H.off /\ last.res = "err")
 ReachLockedBegin   == ~(last.step.a = "begin" /\ last.res = "denied")
 \* a live session whose account expired meanwhile is denied at its next credential step
 ReachCrossWindow   == ~(last.res = "denied" /\ w = "expiring" /\ last.adv /\ last.step.a = "cred" /\ last.H.has /\ ~last.H.ended /\ ~S.locked)
